@@ -10,7 +10,7 @@ for d in seeded/*/; do
   git -C /repo worktree add -q --detach $wt HEAD || { echo "$id WORKTREE-FAILED"; continue; }
   if ! ( cd $wt && git apply /verif/$d/patch.diff ) 2>/dev/null; then echo "$id PATCH-DOES-NOT-APPLY"; git -C /repo worktree remove --force $wt; continue; fi
   for c in $checks; do
-    out=$(VERIF_REPO=$wt timeout 3000 ./check $c --tier quick --no-evidence 2>&1); rc=$?
+    out=$(VERIF_REPO=$wt timeout 3000 ./check $c --tier quick --seed ${SEED:-0} --no-evidence 2>&1); rc=$?
     echo "$id $c rc=$rc $(echo "$out" | grep '  key:' | head -2 | tr '\n' ' ')"
   done
   git -C /repo worktree remove --force $wt
